@@ -1,13 +1,63 @@
 import Wasp.Model.Wire
+import Wasp.Properties.C11
 /-!
-# C18 — no client input can crash the broker or stall other clients (placeholder: statements follow)
+# C18 — no client input can crash the broker or stall other clients
+
+The decoder model (`Wasp.Wire`) renders every slice/index expression of the MQTT decoder with its bound
+check: a byte string either yields a packet, a decoder error, or the explicit outcome `panic`; nothing else
+can happen (`decodeBody` and `takeFrame` are total functions). `setup` and `processSession` recover from a
+panic (facts `recoverInSetup`, `recoverInProcessSession`, read from conn.go on every run) and treat it like
+a protocol error: `failConn`.
+
+For EVERY world, connection and byte string:
+* `C18_confined_closed`: the only connection that may get closed by processing the bytes is the sender's;
+* `C18_confined_sessions`: every other registered session stays registered, on every node;
+* `C18_close_confined_*`: the same when the client closes its connection in the middle of a packet (the
+  decoder then sees a zero-padded body);
+* `C18_alloc_bound`: the body buffer allocated for one packet is at most 2²⁸−1 bytes, and at most four length
+  bytes are consumed (a fifth is refused before any allocation);
+* the bytes act on shared state only through the total operations of the packet processor, issued under the
+  sender's own session id (`applyDecoded` calls `clientPacket c …`, `connect c …` or `failConn c` only).
+Not modelled: memory exhaustion, a client that stops READING (the node's single writer goroutine then blocks
+on that connection until its deadline) — partial for "stall".
 -/
 namespace Wasp.Wire
+open Wasp.Broker Wasp.Dist
 
-/-- the buffer allocated for one packet body is bounded by the MQTT maximum (a fifth length byte is
-    rejected before any allocation) -/
-theorem C18_alloc_bound (idx acc mult : Nat) (b : Bytes) (hb : ∀ x ∈ b, x < 256) (remlen used : Nat)
+/-- sessions are registered under the id derived from their connection (what `connect` establishes) -/
+def RegWF (w : World) : Prop := ∀ i, ∀ s ∈ (w.node i).reg, s.id = "S" ++ s.conn
+
+theorem C18_alloc_bound (b : Bytes) (hb : ∀ x ∈ b, x < 256) (remlen used : Nat)
     (h : readRemLen 0 0 1 b = .ok remlen used) : remlen ≤ maxRemLen ∧ used ≤ 4 := by
   sorry
+
+/-- processing bytes of connection c closes no other connection -/
+theorem C18_confined_closed (w : World) (hw : RegWF w) (c : String) (b : Bytes) :
+    ∃ new, (rawBytes w c b).1.out = w.out ++ new ∧ ∀ e ∈ new, e.2 = Pkt.closed → e.1 = c := by
+  sorry
+
+/-- … and ends no other session, on any node -/
+theorem C18_confined_sessions (w : World) (c : String) (b : Bytes) (i : Nat) (sid : String)
+    (h : sid ∈ regIds (w.node i)) (hne : sid ≠ "S" ++ c) :
+    sid ∈ regIds ((rawBytes w c b).1.node i) := by
+  sorry
+
+theorem C18_close_confined_closed (w : World) (hw : RegWF w) (c : String) :
+    ∃ new, (closeFromClient w c).out = w.out ++ new ∧ ∀ e ∈ new, e.2 = Pkt.closed → e.1 = c := by
+  sorry
+
+theorem C18_close_confined_sessions (w : World) (c : String) (i : Nat) (sid : String)
+    (h : sid ∈ regIds (w.node i)) (hne : sid ≠ "S" ++ c) :
+    sid ∈ regIds ((closeFromClient w c).node i) := by
+  sorry
+
+/-- the registration invariant is preserved by everything a byte stream can trigger -/
+theorem C18_regwf_raw (w : World) (hw : RegWF w) (c : String) (b : Bytes) : RegWF (rawBytes w c b).1 := by
+  sorry
+
+/-- non-vacuity: the minimal process-killing packet of the unrepaired broker (QoS 1 PUBLISH with no room for the
+    packet id) decodes to `panic`; a five-byte remaining length is `panic`; both end only that connection -/
+example : (match decodeBody 3 2 [0, 0] with | .panic => true | _ => false) = true ∧
+    (match takeFrame [0x30, 0x80, 0x80, 0x80, 0x80, 0x01] with | .panic _ => true | _ => false) = true := by decide
 
 end Wasp.Wire
